@@ -16,6 +16,14 @@ def main():
         subprocess.check_call(
             [sys.executable, '-m', 'pip', 'install', '--no-index', '--find-links', '/opt/veriftools/wheels', '--target', deps, 'hypothesis']
         )
+    deps = os.path.join(core.VERIF_DIR, '.deps')
+    if not os.path.isdir(os.path.join(deps, 'atheris')):
+        # optional: only the thorough tier of C07 uses it; its absence is not an error
+        os.makedirs(deps, exist_ok=True)
+        subprocess.call(
+            [sys.executable, '-m', 'pip', 'install', '-q', '--no-index', '--find-links', '/opt/veriftools/wheels', '--target', deps, 'atheris'],
+            stdout=subprocess.DEVNULL, stderr=subprocess.DEVNULL,
+        )  # fmt: skip
     core.bootstrap('hplverif.setup')
     import hpl
     import hypothesis
